@@ -278,6 +278,13 @@ func (a *AnySchema) checkAndConvert(data any) (any, error) {
 			if err != nil {
 				return nil, ConstraintErrorAddPathSegment(err, fmt.Sprintf("[%v]", key))
 			}
+			if _, duplicate := result[key]; duplicate {
+				// Two keys of the input, such as int(1) and int64(1), became the same key. Keeping one of them
+				// would make the result depend on the iteration order.
+				return nil, ConstraintErrorAddPathSegment(&ConstraintError{
+					Message: fmt.Sprintf("Duplicate key: more than one key of the input stands for %v", key),
+				}, fmt.Sprintf("{%v}", k))
+			}
 			result[key] = value
 		}
 		return result, nil
